@@ -4,6 +4,7 @@ import (
 	"fmt"
 	"go/token"
 	"go/types"
+	"sort"
 	"strings"
 
 	"golang.org/x/tools/go/ssa"
@@ -450,4 +451,13 @@ func (r *Run) setterStores(key, rule, fnName, field string) {
 	r.mustPass(key, rule, fn, nil, []Start{Entry(fn)}, func(i ssa.Instruction) bool {
 		return isStoreToField(i, "connection", field) || isStoreToField(i, "connState", field)
 	}, nil, nil, "store to "+field+" on every path")
+}
+
+func sortedKeys(m map[int64]bool) []int64 {
+	var out []int64
+	for k := range m {
+		out = append(out, k)
+	}
+	sort.Slice(out, func(i, j int) bool { return out[i] < out[j] })
+	return out
 }
